@@ -210,12 +210,20 @@ func (g *sgen) str() string {
 	r := g.r
 	n := []int{0, 1, 3, 8, 23, 24, 30, 255, 256, 300}[r.Intn(10)]
 	b := make([]byte, n)
-	for i := range b {
+	for i := 0; i < len(b); i++ {
 		switch r.Intn(8) {
 		case 0:
 			b[i] = byte(r.U64())
 		case 1:
 			b[i] = "\"\\\n\t\x00\x7f"[r.Intn(6)]
+		case 2:
+			// well-formed multi-byte runes, among them U+FFFD itself (valid text that equals the decoder's error marker)
+			if rs := []string{"\ufffd", "é", "€", "\U0001f600", "\u2028", "\ufffd\ufffd"}[r.Intn(6)]; i+len(rs) <= len(b) {
+				copy(b[i:], rs)
+				i += len(rs) - 1
+				continue
+			}
+			b[i] = 'u'
 		default:
 			b[i] = byte('a' + r.Intn(26))
 		}
@@ -359,6 +367,52 @@ func (s *c17state) grid() {
 	}
 }
 
+// c17units: what the contents of a text string are made of - ASCII that needs escaping or not, well-formed
+// multi-byte runes (among them U+FFFD, which is valid text and also the decoder's replacement marker), truncated,
+// overlong, surrogate and out-of-range sequences.
+var c17units = []string{"a", "\"", "\\", "\x00", "\x1f", "\x7f", "\x80", "\xc3", "é", "\ufffd", "\xef\xbf", "\xed\xa0\x80",
+	"\xf4\x90\x80\x80", "\U0001f600", "\xc0\x80", "\xff", "\u2028", "€"}
+
+// textGrid: every text string of up to three units, as a top-level item, as a map key and as a map value, with the
+// definite length forms and as the chunk of an indefinite-length string.
+func (s *c17state) textGrid() {
+	n := len(c17units)
+	idx := 0
+	for code := 0; code < n+n*n+n*n*n; code++ {
+		idx++
+		if !s.f.Mine(idx) {
+			continue
+		}
+		var txt string
+		switch c := code; {
+		case c < n:
+			txt = c17units[c]
+		case c < n+n*n:
+			c -= n
+			txt = c17units[c/n] + c17units[c%n]
+		default:
+			c -= n + n*n
+			txt = c17units[c/(n*n)] + c17units[c/n%n] + c17units[c%n]
+		}
+		item := append(head(3, 24, uint64(len(txt))), txt...)
+		if len(txt) < 24 && code%2 == 0 {
+			item = append(head(3, byte(len(txt)), 0), txt...)
+		}
+		forms := [][]byte{
+			item,
+			append(append([]byte{0xa1}, item...), 0x01),                         // {txt: 1}
+			append(append([]byte{0xbf, 0x61, 0x6b}, item...), 0xff),             // {_ "k": txt}
+			append(append([]byte{0x7f}, item...), 0xff),                         // (_ txt)
+			append(append([]byte{0xbf}, item...), append(item, 0xff)...),        // {_ txt: txt}
+			append(append([]byte{0x82}, item...), item...),                      // [txt, txt]
+		}
+		for _, in := range forms {
+			s.feed(in, "text-grid")
+			s.out.Count("text_grid_inputs", 1)
+		}
+	}
+}
+
 func (s *c17state) randomItem(r *rng.R, dst []byte, depth int) []byte {
 	if depth > 64 || len(dst) > 60000 {
 		return append(dst, 0xf6)
@@ -382,6 +436,15 @@ func (s *c17state) randomItem(r *rng.R, dst []byte, depth int) []byte {
 	n := int(arg % 8)
 	switch major {
 	case 2, 3:
+		if r.Chance(1, 3) {
+			// contents made of text units; the declared length may or may not agree with what follows
+			for i := 0; i < n; {
+				u := c17units[r.Intn(len(c17units))]
+				dst = append(dst, u...)
+				i += len(u)
+			}
+			break
+		}
 		for i := 0; i < n; i++ {
 			dst = append(dst, byte(r.U64()))
 		}
@@ -474,6 +537,7 @@ func c17(args []string) int {
 	}
 	// (2) header/argument grid under prefixes
 	s.grid()
+	s.textGrid()
 	// (2b) the timestamp tag over extreme numbers: the decoder turns them into a time and formats it
 	if f.Shard == 0 {
 		var fbits []uint64
